@@ -694,6 +694,22 @@ struct PeerConnectionInner {
     pc_span: tracing::Span,
 }
 
+/// Signaling state, stored remote description, mid counter, cached fingerprint and every
+/// transceiver's negotiated parameters, as they were before a signalling call started.
+struct SignalingSnapshot {
+    state: SignalingState,
+    remote: Option<SessionDescription>,
+    next_mid: u16,
+    remote_dtls_fingerprint: Option<String>,
+    transceivers: Vec<Arc<RtpTransceiver>>,
+    params: Vec<(
+        Option<String>,
+        TransceiverDirection,
+        HashMap<u8, RtpCodecParameters>,
+        HashMap<u8, String>,
+    )>,
+}
+
 pub(crate) fn generate_sdes_key_params() -> String {
     let mut key_salt = [0u8; 30];
     rand::fill(&mut key_salt);
@@ -1280,10 +1296,19 @@ impl PeerConnection {
                 .ice_transport
                 .set_role(crate::transports::ice::IceRole::Controlling);
         }
-        let desc = self
+        // build_description assigns mids before it binds sockets; if it fails, give them back.
+        let snapshot = self.signaling_snapshot();
+        let desc = match self
             .inner
             .build_description(SdpType::Offer, |dir| dir)
-            .await?;
+            .await
+        {
+            Ok(desc) => desc,
+            Err(err) => {
+                self.restore_signaling(snapshot);
+                return Err(err);
+            }
+        };
         if self.inner.config.transport_mode == TransportMode::Rtp && !Self::sdp_has_bundle(&desc) {
             for (media_index, (transceiver, _)) in self
                 .matched_rtp_media_sections(&desc)
@@ -1311,9 +1336,15 @@ impl PeerConnection {
         self.inner
             .ice_transport
             .set_role(crate::transports::ice::IceRole::Controlled);
-        self.inner
+        let snapshot = self.signaling_snapshot();
+        let result = self
+            .inner
             .build_description(SdpType::Answer, |dir| dir.answer_direction())
-            .await
+            .await;
+        if result.is_err() {
+            self.restore_signaling(snapshot);
+        }
+        result
     }
 
     pub fn set_local_description(&self, desc: SessionDescription) -> RtcResult<()> {
@@ -1420,6 +1451,75 @@ impl PeerConnection {
     }
 
     pub async fn set_remote_description(&self, desc: SessionDescription) -> RtcResult<()> {
+        // A description is applied in several steps (re-INVITE handling, signaling transition,
+        // transceiver updates, transport start). If a late step fails (e.g. a socket cannot be
+        // bound) the call must leave everything as it was: undo what the earlier steps did.
+        let snapshot = self.signaling_snapshot();
+        let result = self.apply_remote_description(desc).await;
+        if result.is_err() {
+            self.restore_signaling(snapshot);
+        }
+        result
+    }
+
+    /// What a failed signalling call has to leave untouched.
+    fn signaling_snapshot(&self) -> SignalingSnapshot {
+        let transceivers = self.inner.transceivers.lock().clone();
+        SignalingSnapshot {
+            state: *self.inner.signaling_state.borrow(),
+            remote: self.inner.remote_description.lock().clone(),
+            next_mid: self.inner.next_mid.load(Ordering::SeqCst),
+            remote_dtls_fingerprint: self.inner.remote_dtls_fingerprint.lock().clone(),
+            params: transceivers
+                .iter()
+                .map(|t| (t.mid(), t.direction(), t.get_payload_map(), t.get_extmap()))
+                .collect(),
+            transceivers,
+        }
+    }
+
+    fn restore_signaling(&self, snapshot: SignalingSnapshot) {
+        // Never re-open a connection that was closed in the meantime.
+        self.inner.signaling_state.send_if_modified(|state| {
+            if *state != SignalingState::Closed && *state != snapshot.state {
+                *state = snapshot.state;
+                true
+            } else {
+                false
+            }
+        });
+        {
+            let mut remote = self.inner.remote_description.lock();
+            if *remote != snapshot.remote {
+                *remote = snapshot.remote;
+            }
+        }
+        self.inner.next_mid.store(snapshot.next_mid, Ordering::SeqCst);
+        *self.inner.remote_dtls_fingerprint.lock() = snapshot.remote_dtls_fingerprint;
+        for (t, (mid, direction, payload_map, extmap)) in
+            snapshot.transceivers.iter().zip(snapshot.params)
+        {
+            if t.mid() != mid {
+                *t.mid.lock() = mid;
+            }
+            if t.direction() != direction {
+                t.set_direction(direction);
+            }
+            if t.get_payload_map() != payload_map {
+                let _ = t.update_payload_map(payload_map);
+            }
+            if t.get_extmap() != extmap {
+                let _ = t.update_extmap(extmap);
+            }
+        }
+        // Transceivers created by the failed call are dropped again.
+        let mut transceivers = self.inner.transceivers.lock();
+        if transceivers.len() != snapshot.transceivers.len() {
+            *transceivers = snapshot.transceivers;
+        }
+    }
+
+    async fn apply_remote_description(&self, desc: SessionDescription) -> RtcResult<()> {
         self.inner.validate_sdp_type(&desc.sdp_type)?;
         let remote_dtls_fingerprint = if self.config().transport_mode == TransportMode::WebRtc {
             match desc.dtls_fingerprint() {
